@@ -38,3 +38,14 @@ Theorem C09_participants_consumed : forall g w q pq,
   chord_retain g w q (N.of_nat (length q)) pq = ([], pq ++ map q_coord q).
 Proof. exact chord_retain_drops_all. Qed.
 Print Assumptions C09_participants_consumed.
+
+(* chords v2 (keyberon/src/chord.rs, modelled in Keyberon/ChordsV2.v): whatever the queue holds, every chord that
+   process_presses activates is one of the configured chords that is enabled on the active layer — a chord disabled
+   there never fires, on any path (loop, backtracking after a foreign key, timeout/release block) *)
+From KV Require Import Keyberon.ChordsV2 Proofs.C09V2Proofs.
+Theorem C09_v2_disabled_chord_never_activated : forall c layer c' a,
+  process_presses c layer = Ok c' -> In a (cv_active c') ->
+  In a (cv_active c) \/
+  exists ch since coord rf, In ch (cv_chords c) /\ enabled_on layer ch = true /\ a = get_active_chord ch since coord rf.
+Proof. exact disabled_chord_never_activated. Qed.
+Print Assumptions C09_v2_disabled_chord_never_activated.
